@@ -1240,3 +1240,15 @@ Proof.
   pose proof (N_of_be_lt s0) as Hlt. assert (256 ^ lenN s0 <= 256 ^ 8) by (apply N.pow_le_mono_r; lia).
   rewrite two64_eq. lia.
 Qed.
+
+(* a skeleton fill is accepted only as a whole batch of exactly MaxHeaderFetch contiguous headers
+   anchored at both ends; everything else is an error value (never a partial acceptance) *)
+Theorem headers_fill_accept_only_full : forall pending count first_ok last_ok chain_ok n,
+  headers_fill_rule pending count first_ok last_ok chain_ok = HfAccepted n ->
+  pending = true /\ n = max_header_fetch /\ count = max_header_fetch /\ first_ok = true /\ last_ok = true /\ chain_ok = true.
+Proof.
+  intros pending count a b c n. unfold headers_fill_rule.
+  destruct pending; cbn [negb]; [|discriminate].
+  destruct (N.eqb_spec count max_header_fetch); destruct a, b, c; cbn [andb]; try discriminate.
+  intros E. injection E as <-. repeat split; auto.
+Qed.
